@@ -35,6 +35,17 @@ type codec[T comparable] struct {
 	nat  func(a, b T) int
 	show func(T) string
 	ties map[string]func(a, b T) int // tying comparators (total preorders coarser than equality)
+	find func(T) (int, bool)         // custom lookup (floats by bits, pointers by pointee); nil: idx
+	mk   func(r int) T               // custom construction (a FRESH pointer per use); nil: pool[r]
+}
+
+// rankOf: the rank of an atom coming out of a container or a document
+func (c *codec[T]) rankOf(x T) (int, bool) {
+	if c.find != nil {
+		return c.find(x)
+	}
+	r, ok := c.idx[x]
+	return r, ok
 }
 
 func newCodec[T comparable](name string, pool []T, nat func(a, b T) int, show func(T) string) *codec[T] {
@@ -50,12 +61,17 @@ func newCodec[T comparable](name string, pool []T, nat func(a, b T) int, show fu
 	return c
 }
 
-func (c *codec[T]) enc(r int) T { return c.pool[r] }
+func (c *codec[T]) enc(r int) T {
+	if c.mk != nil {
+		return c.mk(r)
+	}
+	return c.pool[r]
+}
 
 func (c *codec[T]) encs(rs []int) []T {
 	out := make([]T, len(rs))
 	for i, r := range rs {
-		out[i] = c.pool[r]
+		out[i] = c.enc(r)
 	}
 	return out
 }
@@ -134,8 +150,6 @@ func absInt(x int) int {
 	return x
 }
 
-func isStr(typ string) bool { return typ == "string" || typ == "tstring" }
-
 func strOf(typ string) *codec[string] {
 	if typ == "tstring" {
 		return tstrCodec
@@ -154,19 +168,11 @@ func intOf(typ string) *codec[int] {
 }
 
 // tieNames of an atom type, sorted
-func tieNames(typ string) []string {
-	if isStr(typ) {
-		return []string{"casefold", "firstbyte", "length"}
-	}
-	return []string{"abs", "div3"}
-}
+func tieNames(typ string) []string { return atomOf(typ).ties }
 
 // rankCmpOf: comparator on the ranks of the given atom type
 func rankCmpOf(typ string, rev bool, tie string) func(a, b int) int {
-	if isStr(typ) {
-		return strOf(typ).rankCmp(rev, tie)
-	}
-	return intOf(typ).rankCmp(rev, tie)
+	return atomOf(typ).rankCmp(rev, tie)
 }
 
 func init() {
@@ -207,6 +213,7 @@ func init() {
 	}
 	tintCodec = newCodec("tint", ti, cmp.Compare[int], strconv.Itoa)
 	tintCodec.ties = intTies
+	initAtoms()
 }
 
 // atomText renders the atom of the given rank for histories and details
@@ -214,10 +221,7 @@ func atomText(typ string, r int) string {
 	if r < 0 || r >= poolN {
 		return fmt.Sprintf("<foreign %d>", r)
 	}
-	if isStr(typ) {
-		return showString(strOf(typ).pool[r])
-	}
-	return strconv.Itoa(intOf(typ).pool[r])
+	return atomOf(typ).text(r)
 }
 
 func atomsText(typ string, rs []int) string {
